@@ -138,6 +138,9 @@ Fixpoint find_cid (view : bytes) (offs : list N) (key : bytes) (kp : cidp)
       match raw_uv s with
       | Err e => Err e
       | Ok (slen, r1, n1) =>
+        (* repaired (notes/fixes/C09-findcid-section-limit.patch): the size-only path enforces the
+           section limit like ReadNode does; it used to ignore maxReadBytes *)
+        if maxs <? slen then Err ESectionTooLarge else
         match cid_from_reader r1 with
         | CfrOk n c p _ =>
             if key_matches whole key kp c p
@@ -431,7 +434,10 @@ Section Resume.
       | Ok hin =>
         let view := drop base file in
         match read_header hdrdec (w_maxh o) view with
-        | Err e => inr (e, dv0)
+        | Err e => (* fmt.Errorf("error reading car header: %w", err): the wrapped error is no longer
+                      == io.EOF, so a bare EOF surfaces as an ordinary error (the too-large class is
+                      recognised through the wrapping) *)
+                   inr (match e with EEof => EOther | _ => e end, dv0)
         | Ok (hroots, hver, _, _) =>
           if negb (header_matches hroots hver roots) then inr (EOther, dv0) else
           let dv1 := match hin with
